@@ -190,7 +190,9 @@ def run_driver(cmds):
         return []
     inp = '\n'.join(json.dumps(c, separators=(',', ':')) for c in cmds) + '\n'
     p = subprocess.run([DRIVER], input=inp, stdout=subprocess.PIPE, stderr=subprocess.PIPE, text=True)
-    lines = p.stdout.splitlines()
+    lines = p.stdout.split('\n')
+    if lines and lines[-1] == '':
+        lines.pop()
     if len(lines) != len(cmds):
         raise RuntimeError('driver answered %d lines for %d commands (rc=%s): %s'
                            % (len(lines), len(cmds), p.returncode, p.stderr[:500]))
